@@ -41,7 +41,7 @@ def is_num(v):
 
 
 def is_str(v):
-    return isinstance(v, str) or (isinstance(v, z3.SeqRef) and v.is_string())
+    return isinstance(v, str) or (isinstance(v, z3.SeqRef) and v.is_string()) or hasattr(v, "to_z3")
 
 
 def type_name(v):
@@ -235,6 +235,10 @@ def py_binop(I, o, a, b, env):
     if is_str(a) and is_str(b) and o == "+":
         if isinstance(a, str) and isinstance(b, str):
             return a + b
+        from .strlib import cstr_of, CStr
+        ca, cb = cstr_of(a), cstr_of(b)
+        if ca is not None and cb is not None:
+            return CStr(ca.codes + cb.codes)
         return z3.Concat(zstr(a), zstr(b))
     if is_str(a) and o == "*" and isinstance(b, int):
         if isinstance(a, str):
@@ -304,6 +308,13 @@ def eq(I, a, b):
     if is_str(a) and is_str(b):
         if isinstance(a, str) and isinstance(b, str):
             return a == b
+        from .strlib import cstr_of
+        ca, cb = cstr_of(a), cstr_of(b)
+        if ca is not None and cb is not None:
+            if len(ca.codes) != len(cb.codes):
+                return False
+            return conj([x == y if isinstance(x, int) and isinstance(y, int) else zint(x) == zint(y)
+                         for x, y in zip(ca.codes, cb.codes)])
         return simp(zstr(a) == zstr(b))
     if isinstance(a, tuple) and isinstance(b, tuple):
         if len(a) != len(b):
@@ -630,6 +641,9 @@ def getattr_(I, obj, name):
         v, owner = obj.cls.lookup(name)
         if owner is not None:
             return bind(I, v, obj, owner)
+        if "_buffer" in obj.attrs:
+            from . import nplib
+            return nplib.arr_attr(I, obj.attrs["_buffer"], name)
         ga, _ = obj.cls.lookup("__getattr__")
         if ga is not None:
             return I.call(BoundMethod(ga, obj), [name], {})
@@ -1093,6 +1107,11 @@ def getitem(I, obj, idx, env):
         if i == 0:
             return obj.env.vars[obj.name]
         raise Unsupported("pointer arithmetic")
+    from .heap import ElemCell
+    if isinstance(obj, ElemCell):
+        if I.unC(idx) == 0:
+            return getitem(I, obj.arr, obj.idx, env)
+        raise Unsupported("pointer arithmetic")
     if isinstance(obj, Class):
         if obj.members:
             if isinstance(idx, str) and idx in obj.members:
@@ -1137,6 +1156,11 @@ def setitem(I, obj, idx, v, env):
         m, _ = obj.cls.lookup("__setitem__")
         if m is not None:
             return I.call(BoundMethod(m, obj), [idx, v], {})
+    from .heap import ElemCell
+    if isinstance(obj, ElemCell):
+        if I.unC(idx) == 0:
+            return setitem(I, obj.arr, obj.idx, v, env)
+        raise Unsupported("pointer arithmetic")
     if isinstance(obj, Cell):
         if I.unC(idx) == 0:
             I.store_name(obj.env, obj.name, v)
@@ -1198,7 +1222,7 @@ def to_str(I, val):
         return str(val)
     if isinstance(val, int):
         return str(val)
-    if isinstance(val, z3.SeqRef):
+    if isinstance(val, z3.SeqRef) or hasattr(val, "to_z3"):
         return val
     if isinstance(val, z3.ArithRef) and val.is_int():
         return str_of_int(val)
@@ -1227,6 +1251,9 @@ def as_memoryview(I, ctype, v):
         for i, b in enumerate(v):
             arr.arr = z3.Store(arr.arr, i, b)
         return arr
+    if is_str(v):
+        from . import nplib
+        return nplib.str_to_buffer(I, v)
     if isinstance(v, Obj) and "_buffer" in v.attrs:
         return v.attrs["_buffer"]
     raise Unsupported(f"memoryview of {type_name(v)}")
@@ -1434,6 +1461,8 @@ def install(I):
             return len(v.items)
         if isinstance(v, z3.SeqRef):
             return z3.Length(v)
+        if hasattr(v, "codes"):
+            return len(v.codes)
         if isinstance(v, SymArr):
             return v.shape[0]
         if isinstance(v, Obj):
